@@ -13,10 +13,18 @@ sys.path.insert(0, os.path.dirname(os.path.dirname(os.path.abspath(__file__))))
 from sim import core          # noqa: E402
 
 
-def run_scanner(job, variant, out_path, log_path):
-    """Executed in the forked child: never returns."""
+def run_scanner(job, variant, out_path, log_path, inproc=False):
+    """Runs the real scanner_main once.  Fork mode: executed in a pristine forked child, never
+    returns.  In-process mode: executed in the server itself (no fork, so no copy-on-write page
+    faults, which do not scale in this VM); process-global scanner state is reset first, and the
+    caller confirms any difference it sees in fork mode before believing it."""
     import builtins
+    import gc
+    if not inproc:
+        gc.disable()
     from sim import cfront
+    from giscanner import message
+    message.MessageLogger._instance = None
     jobdir = job['dir']
     os.chdir(jobdir)
     logfd = os.open(log_path, os.O_WRONLY | os.O_CREAT | os.O_TRUNC, 0o644)
@@ -105,7 +113,10 @@ def run_scanner(job, variant, out_path, log_path):
             sys.stderr.flush()
         except Exception:
             pass
-        os._exit(code & 0xff)
+        if not inproc:
+            os._exit(code & 0xff)
+    os.close(logfd)
+    return code & 0xff
 
 
 def serve():
@@ -118,6 +129,9 @@ def serve():
     sys.stdout.flush()
     real_stdout = os.dup(1)
     jobs = {}
+    import gc
+    gc.collect()
+    gc.freeze()        # keep the collector from dirtying (and the kernel from copying) shared pages in children
     for line in sys.stdin:
         line = line.strip()
         if not line:
@@ -131,6 +145,14 @@ def serve():
             with open(jp) as f:
                 jobs[jp] = json.load(f)
         job = jobs[jp]
+        if req.get('mode') == 'inproc':
+            try:
+                code = run_scanner(job, req['variant'], req['out'], req['log'], inproc=True)
+                rep = {'status': code, 'signal': None}
+            except BaseException as e:        # noqa
+                rep = {'status': 71, 'signal': None, 'error': repr(e)}
+            os.write(real_stdout, (json.dumps(rep) + '\n').encode())
+            continue
         pid = os.fork()
         if pid == 0:
             try:
